@@ -19,9 +19,13 @@ Lemma pass_facts_ok :
   check_pass_facts translator_ok_logging server_censor_commands server_censor_guard_count
     parse_command_called_with_default parse_command_returns_lowered_verb pass_replies_literal
     pass_rest_sinks pass_decorator_rest_sinks dispatcher_rest_sinks
-    dispatcher_verb_var dispatcher_rest_var unknown_verb_reply_names
+    dispatcher_lookup_by_parsed_verb unknown_verb_reply_names
     login_pass_prefix login_pass_censor_after login_forwards_censor_after
     client_password_uses secret_raise_sites = true.
+Proof. vm_compute. reflexivity. Qed.
+
+(* no logging call is handed an object whose __repr__/__str__ prints the password it holds (class User) *)
+Lemma secret_objects_ok : secret_object_log_args = [].
 Proof. vm_compute. reflexivity. Qed.
 
 Lemma censor_has_pass : In VERB_PASS server_censor_commands.
